@@ -76,8 +76,18 @@ def fs_consts(mode, **kw):
     return c
 
 
+def head_choices(positions, step, max_heads):
+    """TLA+ text of the set of head placements [positions -> step] with at most max_heads heads."""
+    import itertools
+    out = []
+    for m in range(0, max_heads + 1):
+        for comb in itertools.combinations(positions, m):
+            out.append("<<>>" if not comb else "(" + " @@ ".join(f"{p} :> {step}" for p in comb) + ")")
+    return "{" + ", ".join(out) + "}"
+
+
 def fs_model(consts, invariants=(), dump=None, workers=4, timeout=900, coverage=True):
-    d, mod, cfg = core.write_model("FilterStream", consts, invariants=invariants)
+    d, mod, cfg = core.write_model("FilterStream", consts, invariants=invariants, seq_consts=("HeadChoices",))
     dot = os.path.join(d, "graph.dot") if dump else None
     r = core.run_tlc(mod, cfg, workers=workers, cwd=d, timeout=timeout, dump=dot, coverage=coverage and not dump)
     return r, dot
